@@ -143,7 +143,9 @@ func checkMulti(c *core.Ctx, m multi) {
 			// static pieces that must be refused whatever follows
 			for j, s := range statics {
 				sd := htmltok.DecodeAttrValue(s)
-				if hasCtl(s) || hasCtl(sd) {
+				// (the text after the last datum is no prefix of anything: the property does not
+				// speak about it, and trailing white space is stripped from URLs anyway)
+				if j < len(ids) && (hasCtl(s) || hasCtl(sd)) {
 					c.Violation(k, "static text %+q of the %s value contains whitespace or control characters, but %s was accepted: %+q", s, t.attr, text, r.Out)
 					return true
 				}
@@ -257,8 +259,11 @@ func checkMulti(c *core.Ctx, m multi) {
 }
 
 var multiPrefixes = []string{"/p&#x;", "/p&#X;q", "/a&", "/a/.", "/a/%2e", "https://example.com/a/.", "/p/", "/p?q=", "/p#f", "https://example.com/a/", "/x", "//example.com/b/", "/a?x=1&amp;y=", "mailto:", "/p/Zq", "ja", "javascript:alert(", "/b c/", "/p?q=%", "/a/%2e%", "/p?a&", "/q&#", "/p?a=&lt", "/t&Tab;/", "https://example.com", "/p?q=%2", ""}
-var multiInner = []string{"./Zq", ".Zq", "%2e/Zq", "quest;Zq=", "num;Zq", "/Zq/", "?yZq=1", "&amp;Zq=", "#Zq", "Zq", "/Zq?k=", "-Zq.", "/Zq/..", "", "?Zq=1&amp;z="}
-var multiData = []string{"", "", "v", "b&c=d#e", "a b", "..", "%2e", "x/y", "?q", "javascript:alert(1)", "\"'<>", "é", "%zz", "a=b", ".", ""}
+var multiInner = []string{"./Zq", ".Zq", "%2e/Zq", "quest;Zq=", "num;Zq", "/Zq/", "?yZq=1", "&amp;Zq=", "#Zq", "Zq", "/Zq?k=", "-Zq.", "/Zq/..", "", "?Zq=1&amp;z=",
+	// static text between two actions that ends in something a later datum could complete
+	"Zq&#", "Zq&#x", "Zq%2", "Zq%", "Zq ", "Zq&amp", ".%2", "Zq&lt", "/Zq&#00000000"}
+
+var multiData = []string{"", "", "v", "b&c=d#e", "a b", "..", "%2e", "x/y", "?q", "javascript:alert(1)", "\"'<>", "é", "%zz", "a=b", ".", "", "35", "e", "47;"}
 
 func genMulti(r *core.Rng, i int) multi {
 	pick := func(l []string) string { return l[r.Intn(len(l))] }
